@@ -20,6 +20,7 @@ type Profile struct {
 	Streams   bool // some clients use a TCP control connection
 	SlowCB    bool // slow lifecycle callbacks
 	Coincide  bool // coincidence mode: equal timeouts so that expiries collide (C15/C18)
+	GenFail   bool // the relay address generator fails at a scripted call (a failed Allocate leaves nothing behind)
 	LongAlloc bool // allocation lifetime 2 h so that permission/channel horizons are not cut short (C07)
 	OddSometimes bool // draw per case whether the odd Allocate options are used
 	Fragments []string // structured fragments mixed into the random steps: perm, chan, alloc
@@ -30,7 +31,7 @@ var lifetimes = []int64{-1, -1, -1, 0, 1, 2, 30, 59, 60, 61, 300, 599, 600, 601,
 var allDefects = []string{
 	"nomi", "nomi-bare", "wrongpass", "otheruserpass", "unknownuser", "unknownuser-emptykey", "hmac-trunc", "hmac-ext", "hmac-flip", "altered",
 	"no-username", "no-realm", "no-nonce", "nonce-random", "nonce-alphabet", "nonce-mac-flip", "nonce-ts-flip",
-	"nonce-old", "nonce-lower", "nonce-other-server", "other-realm",
+	"nonce-old", "nonce-lower", "nonce-other-server", "other-realm", "nonce-alnum-len", "nonce-alnum-len",
 }
 
 func genConfig(rt *rapid.T, p *Profile) Config {
@@ -102,6 +103,9 @@ func genConfig(rt *rapid.T, p *Profile) Config {
 			cfg.GenFailAt = rapid.IntRange(1, 3).Draw(rt, "genFailAt")
 		}
 	}
+	if p.GenFail && cfg.GenFailAt == 0 && rapid.IntRange(0, 3).Draw(rt, "genfail") == 0 {
+		cfg.GenFailAt = rapid.IntRange(1, 4).Draw(rt, "genFailAt2")
+	}
 	if p.Defects && rapid.IntRange(0, 11).Draw(rt, "noauth") == 0 {
 		cfg.NoAuth = true
 	}
@@ -155,6 +159,10 @@ func genStep(rt *rapid.T, p *Profile, cfg *Config, i int) Step { //nolint:cyclop
 	st := Step{Op: pickOp(rt, p, "op"), Life: -1}
 	st.C = rapid.IntRange(0, nc-1).Draw(rt, "c")
 	peer := func(label string) int {
+		if cfg.ServerV6 || rapid.IntRange(0, 9).Draw(rt, label+"v6") == 0 {
+			return rapid.SampledFrom([]int{4, 7, 8, 4, 7, 0, 6}).Draw(rt, label) // mostly the IPv6 peers
+		}
+
 		return rapid.OneOf(rapid.IntRange(0, 2), rapid.IntRange(0, len(PeerPool)-1)).Draw(rt, label)
 	}
 	if p.Defects && st.Op != "Send" && st.Op != "ChannelData" && st.Op != "PeerData" && st.Op != "Sleep" && st.Op != "Binding" {
@@ -219,7 +227,7 @@ func genStep(rt *rapid.T, p *Profile, cfg *Config, i int) Step { //nolint:cyclop
 		st.Seed = rapid.Uint64Range(0, 1<<20).Draw(rt, "seed")
 		st.Content = rapid.SampledFrom([]string{"", "", "", "zero", "stun", "chandata", "x4000"}).Draw(rt, "content")
 	case "Hostile":
-		st.N = rapid.IntRange(0, 11).Draw(rt, "mode")
+		st.N = rapid.IntRange(0, 12).Draw(rt, "mode")
 		st.Seed = rapid.Uint64Range(0, 1<<24).Draw(rt, "hseed")
 		if rapid.IntRange(0, 4).Draw(rt, "stranger") == 0 {
 			st.Rel = "stranger"
@@ -293,6 +301,12 @@ func genFragment(rt *rapid.T, p *Profile, cfg *Config) []Step {
 	c := rapid.IntRange(0, len(cfg.Clients)-1).Draw(rt, "fc")
 	peer := rapid.IntRange(0, 2).Draw(rt, "fpeer")
 	peer2 := (peer + 1 + rapid.IntRange(0, 1).Draw(rt, "fpeer2")) % 3
+	if cfg.ServerV6 && !cfg.Strict {
+		// IPv6 allocations: use the IPv6 peers (4 and 8 share an address, 7 is another host)
+		v6 := []int{4, 7, 8}
+		k := rapid.IntRange(0, 2).Draw(rt, "fpeer6")
+		peer, peer2 = v6[k], v6[(k+1+rapid.IntRange(0, 1).Draw(rt, "fpeer62"))%3]
+	}
 	ch := rapid.IntRange(0, 2).Draw(rt, "fch")
 	ch2 := (ch + 1) % 3
 	margin := rapid.SampledFrom([]int{1, 1, 1, 2}).Draw(rt, "fmargin")
